@@ -124,20 +124,57 @@ def events():
     return evs
 
 
-def canon(host, cache_state, seen):
+def canon(host, cache_state, seen, ref=frozenset()):
     return (tuple(sorted(host.items())),
             tuple((k, tuple(cache_state.get(k, ()))) for k in KEYS),
-            tuple(sorted(seen)))
+            tuple(sorted(seen)),
+            tuple(sorted((x, tuple(sorted(o))) for x, o in ref)))
 
 
-def explore(flavour, size, depth, first_events=None):
+def ref_update(ref, ev, ans, size):
+    """Implementation-independent reading of "seen SUCCESSFUL and still among
+    the most recently used entries": (commit, key) enters when a poll answers
+    SUCCESSFUL or a SUCCESSFUL webhook event is delivered for it, and stays
+    for as long as fewer than `size` *other* commits have been the subject of
+    a webhook event or a poll since (whatever their key: conservative, the
+    real cache may keep it longer).  ref: frozenset of ((c, k), others)."""
+    if ev[0] == 'host':
+        return ref
+    out = {}
+    for x, others in ref:
+        if ev[1] != x[0]:
+            others = others | {ev[1]}
+        if len(others) < size:
+            out[x] = frozenset(others)
+    if (ev[0] == 'poll' and ans == 'SUCCESSFUL') or \
+            (ev[0] == 'hook' and ev[3] == 'SUCCESSFUL'):
+        out[(ev[1], ev[2])] = frozenset()
+    return frozenset(out.items())
+
+
+INITS = [
+    # (host, cache state, seen, ref): the empty world, and worlds in which one
+    # verdict is already cached green
+    (dict(), {}, frozenset(), frozenset()),
+    ({(COMMITS[0], KEYS[0]): 'SUCCESSFUL'},
+     {KEYS[0]: ((COMMITS[0], 'SUCCESSFUL'),)},
+     frozenset({(COMMITS[0], KEYS[0])}),
+     frozenset({((COMMITS[0], KEYS[0]), frozenset())})),
+    ({(COMMITS[0], KEYS[1]): 'SUCCESSFUL'},
+     {KEYS[1]: ((COMMITS[0], 'SUCCESSFUL'),)},
+     frozenset({(COMMITS[0], KEYS[1])}),
+     frozenset({((COMMITS[0], KEYS[1]), frozenset())})),
+]
+
+
+def explore(flavour, size, depth, first_events=None, init=0):
     """BFS; returns dict(states, transitions, violations, answers)."""
     from bert_e.git_host import cache as C
     from bert_e.lib.lru_cache import LRUCache
     host = {}
     repo, make_status, hook = make_flavour(flavour, host)
     evs = events()
-    init = (dict(), {}, frozenset())
+    init = INITS[init]
     seen_states = {canon(*init)}
     frontier = [(init, [])]
     transitions = 0
@@ -145,7 +182,7 @@ def explore(flavour, size, depth, first_events=None):
     answers = collections.Counter()
     for d in range(depth):
         nxt = []
-        for (h0, cs0, seen0), hist in frontier:
+        for (h0, cs0, seen0, ref0), hist in frontier:
             for ev in evs:
                 if d == 0 and first_events is not None and \
                         ev not in first_events:
@@ -192,14 +229,27 @@ def explore(flavour, size, depth, first_events=None):
                             'cached, but the cached verdict became %s after '
                             '%s' % (flavour, c[:4], k, dict(cs1[k])[c], here),
                             {'flavour': flavour, 'size': size,
-                             'history': here}))
+                             'init': INITS.index(init), 'history': here}))
                 # (2) answers
                 if ev[0] == 'poll':
                     c, k = ev[1], ev[2]
                     sticky = (c, k) in seen0 and (c, k) in pre_present
                     want = 'SUCCESSFUL' if sticky else (
                         host.get((c, k)) or 'NOTSTARTED')
-                    if ans != want:
+                    if (c, k) in dict(ref0):
+                        if ans != 'SUCCESSFUL':
+                            violations.append((
+                                'answer:%s:seen-green-lost' % flavour,
+                                '%s: poll(%s, %s) answered %s although '
+                                'Bert-E had seen it SUCCESSFUL and fewer '
+                                'than %d other commits were used since '
+                                '(host now says %s) after %s' % (
+                                    flavour, c[:4], k, ans, size,
+                                    host.get((c, k)), here),
+                                {'flavour': flavour, 'size': size,
+                                 'init': INITS.index(init),
+                                 'history': here}))
+                    elif ans != want:
                         violations.append((
                             'answer:%s:%s' % (flavour,
                                               'sticky' if sticky else 'host'),
@@ -208,10 +258,11 @@ def explore(flavour, size, depth, first_events=None):
                                 flavour, c[:4], k, ans, want,
                                 host.get((c, k)), sticky, here),
                             {'flavour': flavour, 'size': size,
-                             'history': here}))
+                             'init': INITS.index(init), 'history': here}))
                 seen1 = frozenset((x for x in seen0 if x in present)) | \
                     frozenset(green)
-                st = (dict(host), cs1, seen1)
+                st = (dict(host), cs1, seen1,
+                      ref_update(ref0, ev, ans, size))
                 key = canon(*st)
                 if key not in seen_states:
                     seen_states.add(key)
@@ -258,25 +309,26 @@ def lru_reference_check(p):
 
 
 def _task(args):
-    flavour, size, depth, first = args
+    flavour, size, depth, first, init = args
     try:
         core.import_berte()
-        return explore(flavour, size, depth, [first])
+        return explore(flavour, size, depth, [first], init)
     except BaseException:
         return {'error': traceback.format_exc()}
 
 
 def extend(cr, tier, seed, workers):
     depth = 4 if tier == 'quick' else 5
-    tasks = [(fl, size, depth, ev) for fl in ('github', 'bitbucket')
-             for size in (1, 2) for ev in events()]
+    tasks = [(fl, size, depth, ev, init) for fl in ('github', 'bitbucket')
+             for size in (1, 2) for ev in events()
+             for init in range(len(INITS))]
     ctx = mp.get_context('fork')
     with ctx.Pool(workers or min(16, os.cpu_count() or 4)) as pool:
         results = pool.map(_task, tasks, 1)
     states = transitions = 0
     answers = collections.Counter()
     seen_fp = set()
-    for (fl, size, d, ev), r in zip(tasks, results):
+    for (fl, size, d, ev, init), r in zip(tasks, results):
         if 'error' in r:
             cr.harness_errors.append(r['error'][-1500:])
             continue
@@ -301,8 +353,12 @@ def extend(cr, tier, seed, workers):
                 'partition) over {host sets a status silently, webhook '
                 'status event, poll get_build_status} x 2 commits x 2 build '
                 'keys x {SUCCESSFUL, FAILED, INPROGRESS}, cache size 1 and 2 '
-                '(eviction happens), GitHub and Bitbucket flavours, depth '
-                '%d; the LRU itself: every sequence of <= 6 get/set over 3 '
+                '(eviction happens), GitHub and Bitbucket flavours, from the '
+                'empty cache and from two states with one verdict cached '
+                'green, depth %d; oracles: cached green never downgraded, '
+                'answers = sticky or host, and an implementation-independent '
+                'recency model (seen green stays green until `size` other '
+                'commits were used); the LRU itself: every sequence of <= 6 get/set over 3 '
                 'keys against a list-based reference' % depth}
     cov['states'] = states
     cov['transitions'] = transitions
@@ -332,7 +388,12 @@ def replay(data):
     C.BUILD_STATUS_CACHE.clear()
     for k in KEYS + ['github_actions']:
         C.BUILD_STATUS_CACHE[k] = LRUCache(case['size'])
-    seen = set()
+    h0, cs0, seen, ref = INITS[case.get('init', 0)]
+    host.update(h0)
+    for k, entries in cs0.items():
+        for c, st in entries:
+            C.BUILD_STATUS_CACHE[k]._dict[c] = make_status(c, k, st)
+    seen = set(seen)
     out = []
     ok = True
     for ev in hist:
@@ -349,6 +410,8 @@ def replay(data):
             sticky = (ev[1], ev[2]) in seen and (ev[1], ev[2]) in pre_present
             want = 'SUCCESSFUL' if sticky else (host.get((ev[1], ev[2])) or
                                                 'NOTSTARTED')
+            if (ev[1], ev[2]) in dict(ref):
+                want = 'SUCCESSFUL'
             if ans != want:
                 ok = False
         green = {(c, k) for k in KEYS
@@ -360,6 +423,7 @@ def replay(data):
             if x in present and x not in green:
                 ok = False
         seen = {x for x in seen if x in present} | green
+        ref = ref_update(ref, ev, ans, case['size'])
         out.append('%s -> %s' % (list(ev), ans))
     C.BUILD_STATUS_CACHE.clear()
     return ok, '\n'.join(out)
